@@ -24,7 +24,6 @@ from ..layout import NotLayout, term_str
 from ..trace import Tracer, isinstance_branches, show_all
 from ..fold import Sym
 from ..layout import TBls, explore
-from .c02 import class_layout_exprs, eval_layout
 
 SER = "_serializable."
 SD = "_serdes"
@@ -33,40 +32,39 @@ SD = "_serdes"
 def rule_r1(ctx: Ctx) -> None:
     repo = ctx.repo
     ctx.rule("C14.R1", "a delimited type's length set depends only on header width, alignment and declared extent; containers use only bit_length_set / alignment_requirement of their fields' types", min_instances=4)
+    from . import c05 as M
+    from .c15 import _prop
+
     d = ctx.cls(SER + "_composite.DelimitedType")
-    exprs, fn = class_layout_exprs(ctx, d)
     bad = []
     shown = ""
-    for ext in (0, 8, 64, 2040):
-        terms = []
-        for rev in ("A", "B"):
-            # two revisions of the inner type with the same extent but different fields / length sets
-            inner = Sym(alignment_requirement=8, extent=ext, bit_length_set=TBls.var("INNER_" + rev, 8), fields=[Sym(data_type=Sym(bit_length_set=TBls.var("F_" + rev), alignment_requirement=1))] * (1 if rev == "A" else 2), inner_type=None)
-            env = {"self": Sym(alignment_requirement=8, extent=ext, inner_type=inner, delimiter_header_type=Sym(bit_length=32)), "inner": inner, "extent": ext}
+    # two revisions of the inner type (different fields, different length sets) behind the same declared extent
+    revisions = {
+        "A": [M.attribute_sym(ctx, "Field", "x", bits=8)],
+        "B": [M.attribute_sym(ctx, "Field", "x", bits=8), M.attribute_sym(ctx, "Field", "y", bits=8)],
+        "C": [M.attribute_sym(ctx, "Field", "x", bits=16), M.attribute_sym(ctx, "Constant", "K")],
+    }
+    inners = {}
+    for rev, attrs in revisions.items():
+        o = M.structure(ctx, attributes=attrs)
+        if isinstance(o, str):
+            raise AnalysisError("revision %s of the inner type cannot be constructed over abstract arguments: %s" % (rev, o))
+        inners[rev] = o
+    for ext in (16, 64, 2040):
+        terms = {}
+        for rev, inner in inners.items():
             try:
-                runs = explore(lambda: eval_layout(ctx, d, exprs, fn, env))
+                runs = explore(lambda: _prop(ctx, M.build_model(ctx, SER + "_composite.DelimitedType", inner=inner, extent=ext), "bit_length_set"))
             except NotLayout as ex:
                 raise AnalysisError("DelimitedType.bit_length_set: %s" % ex)
-            terms.append(sorted(repr(t) for _, ts in runs for t in ts))
+            terms[rev] = sorted(repr(t) for _, t in runs)
             ctx.count()
-        shown = terms[0][0] if terms[0] else "?"
+        shown = terms["A"][0] if terms["A"] else "?"
         want = repr(32 + TBls.of(8).repeat_range(ext // 8))
-        leaks = [t for t in terms[0] + terms[1] if "INNER" in t or "F_" in t]
-        if terms[0] != terms[1] or leaks or any(t != want for t in terms[0]):
-            bad.append({"extent": ext, "revision A": terms[0], "revision B": terms[1], "expected": want})
-    ctx.check(not bad, d.short + ".bit_length_set", shown, "replacing the inner type by a revision with the same extent must not change the container-visible length set", fn.where(), bad[:2])
-    init = d.methods["__init__"]
-    # inner.* only in guards / the super() call / assertions
-    uses = []
-    for st in body_without_docstring(init.node):
-        if isinstance(st, (ast.Assert, ast.If)):
-            continue
-        if isinstance(st, ast.Expr) and isinstance(st.value, ast.Call) and "super()" in norm(st.value.func):
-            continue
-        for n in ast.walk(st):
-            if isinstance(n, ast.Attribute) and isinstance(n.value, ast.Name) and n.value.id == init.params[1] and n.attr in ("bit_length_set", "extent", "fields", "attributes"):
-                uses.append(norm(st)[:80])
-    ctx.check(not uses, init.short, "inner type consulted only in the extent guard", "the layout must not flow from the inner type's fields", init.where(), uses)
+        if any(ts != [want] for ts in terms.values()):
+            bad.append({"extent": ext, "by revision of the inner type": terms, "expected": want})
+    pr = repo.lookup_method(d, "bit_length_set")
+    ctx.check(not bad, d.short + ".bit_length_set", shown, "replacing the inner type by a revision with the same extent must not change the container-visible length set", pr.where() if pr else d.module.relpath, bad[:2])
     # containers: what do they ask of a nested type?  The layout functions are evaluated over nested types that answer
     # only `bit_length_set` and `alignment_requirement`; anything else they consult is recorded.
     asked: List[Tuple[str, str]] = []
